@@ -46,17 +46,27 @@ LEVEL = "proof"
 LEVEL_TEXT = ("Kernel-checked theorems (Props/C17.lean) over an executable model of inspection.py's origin / resolve_supertype / "
               "unwrap / the is*type family on an inductive annotation syntax (NewType / TypeAliasType / ClassVar / Final / TypeVar "
               "wrappers of ANY depth, both spellings of every generic, the three union spellings). The runtime's class lattice is "
-              "DATA: Gen/Lattice.lean is regenerated on every run from the running interpreter (issubclass of each catalogue object "
-              "against each ABC / base the predicates test, typing.get_origin, str/__qualname__, instantiability) together with "
-              "typelib's live tables (GENERIC_TYPE_MAP, _COLLECTIONS, _MAPPING_TYPES, _UNRESOLVABLE, BUILTIN_TYPES, STDLIB_TYPES), "
-              "and the decidable adequacy predicate `adequate` is re-decided against it (lattice_adequate). The theorems are about "
-              "wrappers and spellings over ANY adequate table: <p>_agrees (13 origin-based predicates equal the runtime's issubclass "
-              "on the resolved class for NewType* . alias? chains), <p>_unwrapped_agrees (all 22 class-valued predicates after unwrap, "
-              "every interleaving of wrappers), <p>_spelling_invariant, unwrap_strips / unwrap_idem, origin_instantiable (mapped ABCs "
-              "and concrete classes), syntactic specs of the special-form predicates; negations at concrete witnesses where the code "
-              "does not meet the full statement. Signature helpers (signature, get_type_hints, typed_dict_signature, tuple_signature, "
-              "safe_get_params, simple_attributes, name, qualname, args) and the instance predicates (ishashable, isproperty, "
-              "isdescriptor, isbuiltininstance, isstdlibinstance, issimpleattribute) are checked by the oracle only, not by a theorem.")
+              "DATA: Gen/Lattice.lean is regenerated on every run from the running interpreter (issubclass of each of 164 catalogue "
+              "objects against each ABC / base the predicates test, typing.get_origin, str/__qualname__, instantiability) together "
+              "with typelib's live tables (GENERIC_TYPE_MAP, _COLLECTIONS, _MAPPING_TYPES, _UNRESOLVABLE, BUILTIN_TYPES, STDLIB_TYPES), "
+              "and the decidable predicate `adequate` is re-decided against it (lattice_adequate, lattice_ordinary). The theorems are "
+              "about wrappers and spellings over ANY adequate table: predA_agrees + isdatetype_agrees ... ismappingtype_agrees (the 13 "
+              "origin-based predicates never raise and equal the runtime's issubclass on the resolved class for NewType* . alias? "
+              "chains of any length, either spelling); predA_unwrapped_agrees / predA_unwrapped_chain / predB_unwrapped_agrees + "
+              "isenumtype_unwrapped_agrees ... ispathtype_unwrapped_agrees (all 22 class-valued predicates after unwrap, every "
+              "interleaving of Final / ClassVar / NewType / alias / TypeVar-bound); predA_spelling_invariant, predB_spelling_invariant "
+              "and the *_spelling_invariant theorems of the special-form predicates (the answer depends only on the erased annotation); "
+              "unwrap_strips, unwrap_idem, core_not_wrapper; origin_instantiable + origin_mapped_same_kind (mapped ABCs and concrete "
+              "classes); syntactic specifications isuniontype_spec, isoptionaltype_spec, isliteral_spec, isfinal_spec, "
+              "isclassvartype_spec, isnonetype_spec, isforwardref_spec, isunresolvable_resolved, issubscriptedgeneric_spec_partial, "
+              "isfixedtupletype_spec. Where the code does not meet the full statement the weaker theorem carries an explicit decidable "
+              "hypothesis and the negation is proved at a concrete witness of the regenerated table (alias_chain_raises_witness, "
+              "predA_agrees_full_false, direct_predicates_witness, issequencetype_disagrees_witness, callable_class_witness, "
+              "origin_not_instantiable_witness, issubscriptedgeneric_pipe_witness, unwrap_classvar_literal_witness). "
+              "NOT covered by a theorem, checked by the runtime oracle only: the signature helpers (signature, get_type_hints, "
+              "typed_dict_signature, tuple_signature, safe_get_params, simple_attributes), name / qualname / args on composite "
+              "annotations, isstdlibtype / isstructuredtype / isgeneric, and the instance predicates (ishashable, isproperty, "
+              "isdescriptor, isbuiltininstance, isstdlibinstance, issimpleattribute).")
 LEVEL_NOTE = ("Trusted: Lean kernel; axioms propext, Classical.choice, Quot.sound; the hand-written model Model/Inspect.lean (tied by "
               "the per-run correspondence, not verified); harness/_extract_inspect.py (the table IS the runtime's answer for the "
               "catalogue; objects outside the catalogue are covered only through the adequacy hypothesis); the harness oracle; names of "
@@ -256,15 +266,17 @@ class Env:
 
 
 def canon(s):
-    """Spec up to what Python itself identifies: Optional[...] IS Union[..., None]."""
+    """Spec up to what Python itself identifies: Optional[...] IS Union[..., None]; the members of a union are compared
+    as a set (typing's own subscription cache is keyed by an order-insensitive ==, so `Optional[Union[a, b]]` may come
+    back with the member order of an earlier `Optional[Union[b, a]]`)."""
     if not isinstance(s, list) or not s:
         return s
     k = s[0]
     if k == "u":
         ms = [canon(x) for x in s[2]]
         if s[1] == "optional":
-            return ["u", "typing", ms + [["b", "NoneType"]]]
-        return ["u", s[1], ms]
+            return ["u", "typing", sorted(ms + [["b", "NoneType"]], key=json.dumps)]
+        return ["u", s[1], sorted(ms, key=json.dumps)]
     if k in ("s",):
         return ["s", s[1], [canon(x) for x in s[2]]]
     if k in ("F", "C", "N", "A", "tb"):
@@ -1123,6 +1135,11 @@ def replay(failure):
     res = Result()
     core.import_typelib()
     from typelib.py import inspection
+    if inp.get("ann") is None:          # a signature helper / instance predicate check
+        evaluate_helpers(res)
+        fs = [f for f in res.failures if f["what"] == failure.get("what") and f["input"]["shown"] == inp.get("shown")]
+        print(json.dumps(fs[:4], indent=1, default=str)[:3000])
+        return bool(fs)
     evaluate(None, res, Env(inspection), [inp["ann"]], [])
     fs = [f for f in res.failures if f["input"]["pred"] == inp["pred"]]
     print(json.dumps({"annotation": inp.get("shown"), "failures": fs[:4], "disagreements": res.disagreements[:4]}, indent=1,
